@@ -14,7 +14,7 @@ from .. import ast as A
 from ..runner import Outcome, fail, open_features
 from ..strategies import Cfg, draw_dataset, chance, PROFILES
 from ..world import build_entities, CLASSES
-from ..build import declare_vars
+from ..build import declare_vars, build_cond
 from ..qcheck import ident, show_rows, var_domains, compare_lists
 
 from entity_query_language import an, entity, set_of, symbolic_mode, concatenate, in_, contains, not_, let
@@ -50,6 +50,11 @@ def _case(draw, tier):
     return {"ents": recs, "doms": [parents, outer], "vars": [{"dom": 0, "decl": draw(st.sampled_from(["let", "from"])), "type": "Ent"},
                                                             {"dom": 1, "decl": draw(st.sampled_from(["let", "from"])), "type": "Ent"}],
             "select_form": draw(st.sampled_from(["entity", "entity", "set_of"])),
+            # the membership test alone, or combined with another condition on the outer variable
+            "combo": draw(st.sampled_from(["alone", "alone", "or_cond_first", "or_cond_first", "or_cond_last", "and_cond_first",
+                                           "and_cond_last", "not_and_cond_first"])),
+            "other_cond": ["cmp", draw(st.sampled_from([">=", "==", "<"])), ["attr", ["var", 1], draw(st.sampled_from(["a", "b"]))],
+                           ["const", draw(st.sampled_from(PROFILES[cfg.profile]["ints"]))]],
             "inner": inner, "form": draw(st.sampled_from(["in_", "contains"])), "negate": draw(st.booleans()),
             "neg_spelling": draw(st.sampled_from(["not_", "~"])), "dom_kind": "list",
             "outer_term": draw(st.sampled_from(["var", "var", "ref"])) if inner == "kids" else
@@ -79,11 +84,23 @@ def check(case) -> Outcome:
 
     def member(v):
         return v in flat          # ordinary Python membership (identity or ==)
+    combo = case.get("combo", "alone")
+
+    def holds(o):
+        m = member(oval(o)) != bool(case["negate"])
+        if combo == "alone":
+            return m
+        c_ = A.eval_cond(case["other_cond"], {1: o})
+        if combo.startswith("or_"):
+            return c_ or m
+        if combo.startswith("and_"):
+            return c_ and m
+        return not (c_ and m)
     members = [o for o in outer if member(oval(o))]
     non_members = [o for o in outer if not member(oval(o))]
     ids = [ident((x,)) for x in flat]
     nontrivial = len(parents) >= 2 and len(set(ids)) < len(ids) and bool(members) and bool(non_members)
-    classes = ["select_" + case.get("select_form", "entity"), "inner_" + case["inner"], "form_" + case["form"], "negated" if case["negate"] else "plain",
+    classes = ["combo_" + case.get("combo", "alone"), "select_" + case.get("select_form", "entity"), "inner_" + case["inner"], "form_" + case["form"], "negated" if case["negate"] else "plain",
                f"parents{len(parents)}", "outer_" + ot]
     if not flat:
         classes.append("all_inners_empty")
@@ -131,6 +148,19 @@ def check(case) -> Outcome:
             cond = in_(item, c) if case["form"] == "in_" else contains(c, item)
             if case["negate"]:
                 cond = not_(cond) if case["neg_spelling"] == "not_" else ~cond
+            if combo != "alone":
+                from entity_query_language import and_, or_
+                oc = build_cond(case["other_cond"], [None, d])
+                if combo == "or_cond_first":
+                    cond = or_(oc, cond)
+                elif combo == "or_cond_last":
+                    cond = or_(cond, oc)
+                elif combo == "and_cond_first":
+                    cond = and_(oc, cond)
+                elif combo == "and_cond_last":
+                    cond = and_(cond, oc)
+                else:
+                    cond = not_(and_(oc, cond))
             if case.get("select_form", "entity") == "entity":
                 q = an(entity(d, cond))
             else:
@@ -151,7 +181,7 @@ def check(case) -> Outcome:
     if snapshot(objs) != before:
         return fail("user_data_modified", "evaluating the membership query changed an attribute (or an inner collection) "
                                           "of a dataset object", nontrivial=nontrivial, classes=classes, features=feats)
-    want = [(o,) for o in (non_members if case["negate"] else members)]
+    want = [(o,) for o in outer if holds(o)]
     bad = compare_lists(want, got)
     if bad:
         return fail("membership_" + bad[0], f"{'not ' if case['negate'] else ''}{case['form']}(d{'' if ot == 'var' else '.' + ot}, "
@@ -165,4 +195,5 @@ def render(case):
                         for i in case["doms"][0]],
             "outer_domain": case["doms"][1],
             "query": f"{'not ' if case['negate'] else ''}{case['form']}(d{'' if case['outer_term'] == 'var' else '.' + case['outer_term']}, "
-                     f"concatenate(p.{case['inner']}))"}
+                     f"concatenate(p.{case['inner']}))",
+            "combined": case.get("combo", "alone") + ("" if case.get("combo", "alone") == "alone" else " with " + A.r_cond(case["other_cond"]).replace("v1", "d"))}
